@@ -12,6 +12,7 @@ import shutil
 import subprocess
 import sys
 import tempfile
+import threading
 import time
 
 VERIF = os.path.dirname(os.path.dirname(os.path.abspath(__file__)))
@@ -55,6 +56,7 @@ class Ctx:
         self.assumptions = []
         self.tlc_runs = []
         self.thorough = tier == "thorough"
+        self._lock = threading.Lock()
 
     def cleanup(self):
         if os.environ.get("VERIF_KEEP"):
@@ -127,8 +129,11 @@ class Ctx:
     # ------------------------------------------------------------------ TLC
     def _specdir(self):
         d = os.path.join(self.scratch, "spec")
-        if not os.path.isdir(d):
-            shutil.copytree(SPEC, d)
+        with self._lock:
+            if not os.path.isdir(d):
+                tmp = d + ".tmp"
+                shutil.copytree(SPEC, tmp)
+                os.rename(tmp, d)
         return d
 
     def tlc(self, module, cfg, workers=None, timeout=1800, env=None, extra=(), simulate=None,
